@@ -15,7 +15,7 @@ Import ListNotations.
 From RV Require Import Base.Bytes Model.Ckpt Model.Gc.
 Open Scope N_scope.
 
-Record hobs := mkHObs { h_id : N; h_present : bool; h_wal : list fname; h_after : N; h_lastseq : N; h_tables : list fname; h_missing : list fname }.
+Record hobs := mkHObs { h_id : N; h_dir : N; h_present : bool; h_wal : list fname; h_after : N; h_lastseq : N; h_tables : list fname; h_missing : list fname }.
 Record lobs := mkLObs { l_db : N; l_seq : N; l_latest : N; l_tables : list fname; l_missing : list fname }.
 Record robs := mkRObs { r_outcome : N; r_scan : list (bytes * bytes); r_gets : list (bytes * option bytes) }.
 Record obs := mkObs { o_files : list fname; o_read : option robs; o_handles : list hobs; o_live : list lobs;
@@ -50,7 +50,9 @@ Fixpoint ins_kv (p : bytes * bytes) (l : smap) : smap :=
 Definition sm_sorted (m : smap) : smap := fold_right ins_kv [] m.
 
 Record sdb := mkS { s_map : smap; s_ids : list N; s_scope : list own; s_live : bool; s_dir : N;
-                     s_pend : list N (* ids a retention update dropped from the list but whose removal has not been saved yet *) }.
+                     s_pend : list N; (* ids a retention update dropped from the list but whose removal has not been saved yet *)
+                     s_srcs : list N  (* keys (hk id dir) of the handles this database was restored from *) }.
+Definition hk (id dir : N) : N := id * 1000 + dir.
 Record spec := mkSpec {
   p_dbs : list sdb;
   p_snaps : list (N * (smap * list own));    (* checkpoint id -> oracle map and scope at the call *)
@@ -71,7 +73,7 @@ Definition completed (p : spec) (id : N) : bool := existsb (fun h => fst h =? id
 Definition spec_write (p : spec) (d : N) (k : bytes) (v : option bytes) : spec :=
   match sget p d with
   | Some x => if s_live x && in_scope (s_scope x) k then
-                sset p d (mkS (match v with Some v' => sm_put (s_map x) k v' | None => sm_del (s_map x) k end) (s_ids x) (s_scope x) true (s_dir x) (s_pend x))
+                sset p d (mkS (match v with Some v' => sm_put (s_map x) k v' | None => sm_del (s_map x) k end) (s_ids x) (s_scope x) true (s_dir x) (s_pend x) (s_srcs x))
               else p
   | None => p
   end.
@@ -79,7 +81,7 @@ Definition spec_write (p : spec) (d : N) (k : bytes) (v : option bytes) : spec :
 (* a Save of database d that wrote the checkpoints file: the ids dropped from its list are no longer in the durable list *)
 Definition spec_saved (p : spec) (d : N) : spec :=
   match sget p d with
-  | Some x => let p1 := sset p d (mkS (s_map x) (s_ids x) (s_scope x) (s_live x) (s_dir x) []) in
+  | Some x => let p1 := sset p d (mkS (s_map x) (s_ids x) (s_scope x) (s_live x) (s_dir x) [] (s_srcs x)) in
               mkSpec (p_dbs p1) (p_snaps p) (p_tasks p) (p_done p) (p_dropped p ++ s_pend x) (p_wals p) (p_d11 p) (p_nextdir p)
   | None => p
   end.
@@ -106,7 +108,7 @@ Definition spec_retain (p : spec) (d : N) (ids : list N) (f : N) : spec :=
       let stays := fun i => memN i ids || (fold_right N.max 0 ids <? i) in
       if match filter stays (s_ids x) with [] => true | _ => false end then p (* the update names no checkpoint of this database: refused, nothing changes *) else
       let gone := filter (fun i => negb (stays i)) (s_ids x) in
-      let p1 := sset p d (mkS (s_map x) (filter stays (s_ids x)) (s_scope x) (s_live x) (s_dir x) (s_pend x ++ gone)) in
+      let p1 := sset p d (mkS (s_map x) (filter stays (s_ids x)) (s_scope x) (s_live x) (s_dir x) (s_pend x ++ gone) (s_srcs x)) in
       if f =? 1 then p1 else spec_saved p1 d
   | None => p
   end.
@@ -117,8 +119,8 @@ Definition spec_step (p : spec) (o : op) (restore_ok : bool) : spec :=
   | ODel d k _ => spec_write p d k None
   | OCkpt d id =>
       match sget p d with
-      | Some x => let p1 := sset p d (mkS (s_map x) (s_ids x ++ [id]) (s_scope x) (s_live x) (s_dir x) (s_pend x)) in
-                  mkSpec (p_dbs p1) ((id, (s_map x, s_scope x)) :: p_snaps p) (p_tasks p ++ [(id, false)]) (p_done p) (p_dropped p) (p_wals p) (p_d11 p) (p_nextdir p)
+      | Some x => let p1 := sset p d (mkS (s_map x) (s_ids x ++ [id]) (s_scope x) (s_live x) (s_dir x) (s_pend x) (s_srcs x)) in
+                  mkSpec (p_dbs p1) ((hk id (s_dir x), (s_map x, s_scope x)) :: p_snaps p) (p_tasks p ++ [(id, false)]) (p_done p) (p_dropped p) (p_wals p) (p_d11 p) (p_nextdir p)
       | None => p
       end
   | OStepCkpt d id => spec_ckpt_step p d id 0
@@ -128,16 +130,23 @@ Definition spec_step (p : spec) (o : op) (restore_ok : bool) : spec :=
   | ORestore _ id same ow _ =>
       let hd := match find (fun h => fst h =? id) (p_done p) with Some h => snd h | None => 0 end in
       let dir := if same then hd else p_nextdir p in
-      let '(m, sc) := match find (fun s => fst s =? id) (p_snaps p) with Some s => snd s | None => ([], []) end in
+      let '(m, sc) := match find (fun s => fst s =? hk id hd) (p_snaps p) with Some s => snd s | None => ([], []) end in
       let sc' := ow :: sc in
-      let x := mkS (filter (fun kv => in_scope sc' (fst kv)) m) [id] sc' restore_ok dir [] in
+      let x := mkS (filter (fun kv => in_scope sc' (fst kv)) m) [id] sc' restore_ok dir [] [hk id hd] in
       (* restoring into the directory of the source supersedes the other handles of that directory *)
       let gone := if same then map fst (filter (fun h => (snd h =? hd) && negb (fst h =? id)) (p_done p)) else [] in
       mkSpec (p_dbs p ++ [x]) (p_snaps p) (p_tasks p) (p_done p) (p_dropped p ++ gone) (p_wals p) (p_d11 p)
              (if same then p_nextdir p else p_nextdir p + 1)
+  | ORestoreM _ id dirs ow _ =>
+      let m := flat_map (fun dir => match find (fun s => fst s =? hk id dir) (p_snaps p) with Some s => fst (snd s) | None => [] end) dirs in
+      let sc' := [ow] in
+      let x := mkS (filter (fun kv => in_scope sc' (fst kv)) m) [id] sc' restore_ok (p_nextdir p) [] (map (hk id) dirs) in
+      mkSpec (p_dbs p ++ [x]) (p_snaps p) (p_tasks p) (p_done p) (p_dropped p) (p_wals p) (p_d11 p) (p_nextdir p + 1)
+  | OOpen _ =>
+      mkSpec (p_dbs p ++ [mkS [] [] [] true (p_nextdir p) [] []]) (p_snaps p) (p_tasks p) (p_done p) (p_dropped p) (p_wals p) (p_d11 p) (p_nextdir p + 1)
   | OCrash d | ODrop d =>
       match sget p d with
-      | Some x => let p1 := sset p d (mkS (s_map x) (s_ids x) (s_scope x) false (s_dir x) (s_pend x)) in
+      | Some x => let p1 := sset p d (mkS (s_map x) (s_ids x) (s_scope x) false (s_dir x) (s_pend x) (s_srcs x)) in
                   (* checkpoints of that object that had not completed never will *)
                   mkSpec (p_dbs p1) (p_snaps p) (filter (fun t => negb (memN (fst t) (s_ids x))) (p_tasks p)) (p_done p) (p_dropped p) (p_wals p) (p_d11 p) (p_nextdir p)
       | None => p
@@ -152,17 +161,17 @@ Definition model_handle (w : world) (h : N * N) : hobs :=
   | Some (FCk docs) =>
       match find_doc docs id with
       | Some d => let ts := sort_names (map td_name (dc_tables d)) in
-                  mkHObs id true [dc_wal d] (dc_after d) (dc_lastseq d) ts
-                         (sort_names (filter (fun n => negb (fs_has (g_fs w) n)) (dc_wal d :: map td_name (dc_tables d))))
-      | None => mkHObs id false [] 0 0 [] []
+                  mkHObs id dir true (dc_wal d :: dc_xw d) (dc_after d) (dc_lastseq d) ts
+                         (sort_names (filter (fun n => negb (fs_has (g_fs w) n)) (dc_wal d :: dc_xw d ++ map td_name (dc_tables d))))
+      | None => mkHObs id dir false [] 0 0 [] []
       end
-  | _ => mkHObs id false [] 0 0 [] []
+  | _ => mkHObs id dir false [] 0 0 [] []
   end.
 Fixpoint ins_handle (h : N * N) (l : list (N * N)) : list (N * N) :=
-  match l with [] => [h] | y :: l' => if fst h <? fst y then h :: l else y :: ins_handle h l' end.
+  match l with [] => [h] | y :: l' => if (fst h <? fst y) || ((fst h =? fst y) && (snd h <? snd y)) then h :: l else y :: ins_handle h l' end.
 Definition sort_handles (l : list (N * N)) : list (N * N) := fold_right ins_handle [] l.
 Definition hobs_eqb (a b : hobs) : bool :=
-  (h_id a =? h_id b) && Bool.eqb (h_present a) (h_present b) && names_eqb (h_wal a) (h_wal b) && (h_after a =? h_after b)
+  (h_id a =? h_id b) && (h_dir a =? h_dir b) && Bool.eqb (h_present a) (h_present b) && names_eqb (h_wal a) (h_wal b) && (h_after a =? h_after b)
   && (h_lastseq a =? h_lastseq b) && names_eqb (h_tables a) (h_tables b) && names_eqb (sort_names (h_missing a)) (h_missing b).
 
 Fixpoint model_live (dbs : list wdb) (i : N) : list lobs :=
@@ -211,15 +220,18 @@ Definition check_step (st : world * spec) (so : op * obs) : (world * spec) * lis
   let '(w, p) := st in
   let '(o, ob) := so in
   let w' := step w o in
-  let restore_ok := match o, o_read ob with ORestore _ _ _ _ _, Some r => r_outcome r =? 0 | _, _ => false end in
+  let restore_ok := match o, o_read ob with ORestore _ _ _ _ _, Some r | ORestoreM _ _ _ _ _, Some r => r_outcome r =? 0 | _, _ => false end in
   let p0 := spec_step p o restore_ok in
   let p1 := match o with
             | OGc => mkSpec (p_dbs p0) (p_snaps p0) (p_tasks p0) (p_done p0) (p_dropped p0) (p_wals p0) (p_d11 p0 ++ map (fun n => (n, true)) (d11_created w) ++ map (fun n => (n, false)) (d11_any w)) (p_nextdir p0)
             | _ => p0 end in
   (* remember the WAL of every handle whose document is visible *)
-  let p' := mkSpec (p_dbs p1) (p_snaps p1) (p_tasks p1) (p_done p1) (p_dropped p1)
-                   (fold_left (fun acc h => if h_present h && negb (existsb (fun q => fst q =? h_id h) acc)
-                                            then match h_wal h with n :: _ => (h_id h, n) :: acc | [] => acc end else acc) (o_handles ob) (p_wals p1))
+  (* a handle the implementation RETURNED is a completed checkpoint, whatever the oracle expected of that step (e.g. a storage
+     fault that should have failed it): it must restore exactly *)
+  let done' := fold_left (fun acc h => if existsb (fun q => (fst q =? h_id h) && (snd q =? h_dir h)) acc then acc else acc ++ [(h_id h, h_dir h)]) (o_handles ob) (p_done p1) in
+  let p' := mkSpec (p_dbs p1) (p_snaps p1) (p_tasks p1) done' (p_dropped p1)
+                   (fold_left (fun acc h => if h_present h && negb (existsb (fun q => fst q =? hk (h_id h) (h_dir h)) acc)
+                                            then match h_wal h with n :: _ => (hk (h_id h) (h_dir h), n) :: acc | [] => acc end else acc) (o_handles ob) (p_wals p1))
                    (p_d11 p1) (p_nextdir p1) in
   let keys := match o_read ob with Some r => map fst (r_gets r) | None => [] end in
   (* ----- model comparisons ----- *)
@@ -234,6 +246,11 @@ Definition check_step (st : world * spec) (so : op * obs) : (world * spec) * lis
                 | ORestore _ id same ow nb, Some r =>
                     let dir := if same then match handle_dir w id with Some hd => hd | None => 0 end else g_nextdir w in
                     match open_from w id dir ow nb with
+                    | RFail c => flag (r_outcome r =? c) 1
+                    | ROpen x => flag (robs_eqb r (model_read w' x keys)) 1
+                    end
+                | ORestoreM _ id dirs ow nb, Some r =>
+                    match open_fromM w id dirs (g_nextdir w) ow nb with
                     | RFail c => flag (r_outcome r =? c) 1
                     | ROpen x => flag (robs_eqb r (model_read w' x keys)) 1
                     end
@@ -254,13 +271,18 @@ Definition check_step (st : world * spec) (so : op * obs) : (world * spec) * lis
                    else []) (o_handles ob) in
   let s_live := flat_map (fun l => match l_missing l with [] => [] | ms => if subset_names ms d11c then [111] else [101] end) (o_live ob) in
   let s_wal := match o with
-               | ORetain _ _ | OStepCkpt _ _ =>
-                   (* the update has been saved and its deletions did not fail: the WAL of every id that just left the
-                      durable list must be gone *)
-                   flat_map (fun i => if memN i (p_dropped p) then [] else
-                                      match find (fun q => fst q =? i) (p_wals p') with
-                                      | Some q => flag (negb (mem_name (snd q) (o_files ob))) 102
-                                      | None => [] end) (p_dropped p')
+               | ORetain d _ | OStepCkpt d _ =>
+                   (* the update has been saved and its deletions did not fail: for every id that just left the durable list, the
+                      WAL of the database's own checkpoint and of every handle it was restored from must be gone *)
+                   match sget p d, sget p' d with
+                   | Some x, Some x' =>
+                       flat_map (fun i => if memN i (s_ids x' ++ s_pend x') then [] else
+                                   flat_map (fun k => match find (fun q => fst q =? k) (p_wals p') with
+                                                      | Some q => flag (negb (mem_name (snd q) (o_files ob))) 102
+                                                      | None => [] end)
+                                            (hk i (s_dir x) :: filter (fun k => k / 1000 =? i) (s_srcs x)))
+                                (s_ids x ++ s_pend x)
+                   | _, _ => [] end
                | _ => [] end in
   (* [o_during] holds (id, 9, 0) for every completed handle that had a missing file while a slow neighbour had not answered;
      only the retained ones matter, and the D11 class is left to codes 110/111 *)
@@ -271,7 +293,7 @@ Definition check_step (st : world * spec) (so : op * obs) : (world * spec) * lis
   let s_restore := match o, o_read ob with
                    | ORestore _ id _ ow _, Some r =>
                        if completed p id && retained p id then
-                         match find (fun s => fst s =? id) (p_snaps p) with
+                         match find (fun s => fst s =? hk id (match find (fun h => fst h =? id) (p_done p) with Some h => snd h | None => 0 end)) (p_snaps p) with
                          | Some (_, (m, sc)) =>
                              let sc' := ow :: sc in
                              if r_outcome r =? 0 then spec_read_ok (filter (fun kv => in_scope sc' (fst kv)) m) sc' r 11 12
@@ -279,6 +301,15 @@ Definition check_step (st : world * spec) (so : op * obs) : (world * spec) * lis
                                let miss := flat_map h_missing (filter (fun h => h_id h =? id) (o_handles ob)) in
                                if (r_outcome r =? 4) && negb (match miss with [] => true | _ => false end) && subset_names miss d11 then [14] else [10]
                          | None => [] end
+                       else []
+                   | ORestoreM _ id dirs ow _, Some r =>
+                       if forallb (fun dir => existsb (fun h => (fst h =? id) && (snd h =? dir)) (p_done p)) dirs && retained p id then
+                         let m := flat_map (fun dir => match find (fun s => fst s =? hk id dir) (p_snaps p) with Some s => fst (snd s) | None => [] end) dirs in
+                         let sc' := [ow] in
+                         if r_outcome r =? 0 then spec_read_ok (filter (fun kv => in_scope sc' (fst kv)) m) sc' r 11 12
+                         else
+                           let miss := flat_map h_missing (filter (fun h => h_id h =? id) (o_handles ob)) in
+                           if (r_outcome r =? 4) && negb (match miss with [] => true | _ => false end) && subset_names miss d11 then [14] else [10]
                        else []
                    | ORead d, Some r =>
                        match sget p' d with
@@ -293,7 +324,7 @@ Fixpoint dedup (l : list N) : list N :=
 
 Definition check_case (c : case) : list N :=
   let init := (init_world (k_mem c) (k_wal c),
-               mkSpec [mkS [] [] [] true 0 []] [] [] [] [] [] [] 1) in
+               mkSpec [mkS [] [] [] true 0 [] []] [] [] [] [] [] [] 1) in
   dedup (snd (fold_left (fun acc so => let '(st, codes) := check_step (fst acc) so in (st, snd acc ++ codes)) (k_steps c) (init, []))).
 
 Definition is_c09_code (c : N) : bool := (c =? 2) || (c =? 3) || (c =? 4) || (c =? 7) || (100 <=? c).
